@@ -2,7 +2,11 @@
 
 spec/SweepFee: sweep.LinearFeeFunction as a state machine (exact integer arithmetic, both neighbours
 allowed only at exact .5 ties of the three float64 roundings) and sweep.TxPublisher for one bump
-request (MaxFeeRateAllowed, createAndCheckTx, createRBFCompliantTx loop, fee bumps, retry rates).
+request (MaxFeeRateAllowed, createAndCheckTx, createRBFCompliantTx loop, fee bumps, retry rates), and
+the regroup step in front of it: every input carries the fee rate it was offered last, the set's
+starting rate is the largest of them (RegroupStart), so no input is offered less after regrouping
+(RegroupNoDecrease) - executed through the real UtxoSweeper.markInputsPublishFailed /
+markInputsPendingPublish, BudgetAggregator.ClusterInputs and BudgetInputSet.
 
   (a) exhaustive TLC: fee function grids (all walks of Increment/IncreaseFeeRate with skipping,
       repeating, increasing conf targets), publisher grids (budgets around the fee thresholds of a
@@ -193,7 +197,8 @@ def controls(ck, recs, dec, tag):
 def stats(ck, recs):
     st = ck.cov.setdefault("stats", dict(fee_functions=0, requests=0, txs_checked=0, txs_published=0, delta_ties=0,
                                          rate_ties=0, budget_rate_ties=0, top_ups=0, required_outputs=0,
-                                         dust_absorbed=0, max_width=0, max_rate=0))
+                                         dust_absorbed=0, max_width=0, max_rate=0, regrouped_with_prev_rates=0,
+                                         regrouped_largest_not_last=0))
     for r in recs:
         a = r.get("a")
         if a in ("New", "Init") and r.get("live") == 1:
@@ -207,6 +212,9 @@ def stats(ck, recs):
             st["rate_ties"] += 1
         if a in ("Req", "Retry"):
             st["requests"] += 1
+            nz = [x for x in r.get("prevs", []) if x > 0]
+            st["regrouped_with_prev_rates"] += 1 if nz else 0
+            st["regrouped_largest_not_last"] += 1 if nz and nz[-1] != max(nz) else 0
             st["top_ups"] += 1 if r.get("wallet") else 0
             st["required_outputs"] += 1 if r.get("reqout") else 0
             if (2000 * r["budget"]) % (2 * r["weight"]) == r["weight"]:
